@@ -213,3 +213,114 @@ Example C20_example_d11g :
 Proof. split; vm_compute; reflexivity. Qed.
 Example C20_example_clamp : clamp (-3) 20 8 = (0, 8) /\ clamp (-5) (-2) 8 = (0, 0) /\ clamp 9 12 8 = (9, 8).
 Proof. repeat split. Qed.
+
+(* ---- binary64: the sums are exact on the generator's domain -----------------------------------
+   Model/PyArrays.v computes in exact arithmetic (values in eighths, a mean cell is the exact quotient
+   [OQ sum count]); lib.rs accumulates in f64.  Model/PyArraysIeee.v writes the same accumulations with the
+   IEEE operations of Base/Float.v (round to nearest even): for one bin of to_array_bins,
+   [py_sum_ieee] = fold of  v += (overlap as f64) * value  over the bin's contributions (overlap size, value).
+   Domain [py_in_domain l] (decidable; the generator's VALS8 and ranges lie far inside): overlap sizes >= 0,
+   every value a multiple of 1/8 with |v| <= 1024 (8192 eighths), at most 2^24 covered bases.
+   [gval E (-3) x k] (Proofs/FloatExact.v): x is finite, its exponent is >= E, and it denotes exactly k/8.
+   (1) whatever pair carries each value (v64; e.g. what an f32 pattern decodes to, E = -149), the accumulated
+       f64 is finite and denotes EXACTLY the model's whole-number sum: no rounding ever happens;
+   (2) on the canonical carrier [f8 z] (z at exponent -3) the accumulated pair is literally [f8 sum], hence
+   (3) the mean cell is Base/Float.v's division (the exact quotient rounded once) applied to exactly the
+       numerator sum/8 and the denominator count of the model's cell -- the correctly rounded quotient the
+       correspondence check compares the implementation's bit pattern with;
+   (4) the sum stays below 2^37 eighths. *)
+From BT Require Import Base.Float Model.PyArraysIeee Proofs.FloatExact Proofs.PyArraysIeee.
+
+Theorem C20_sums_exact_in_domain : forall l : list (Z * Z), py_in_domain l = true ->
+  (forall E (v64 : Z -> Float.fl), E <= -3 -> (forall t, In t l -> gval E (-3) (v64 (snd t)) (snd t)) ->
+     gval E (-3) (py_sum_ieee ieee (lift v64 l)) (py_sum_exact l))
+  /\ py_sum_ieee ieee (lift f8 l) = f8 (py_sum_exact l)
+  /\ py_mean_ieee ieee (lift f8 l) = fdiv64 ieee (f8 (py_sum_exact l)) (f_of_Z (py_count l))
+  /\ Z.abs (py_sum_exact l) <= 8192 * 2 ^ 24.
+Proof.
+  intros l Hd. split; [|split; [exact (py_sum_f8 l Hd)|split; [exact (py_mean_f8 l Hd)|]]].
+  - intros E v64 HE Hv. apply py_sum_grid; [exact HE|apply mode_ok64_ieee; lia|exact Hd|exact Hv].
+  - destruct (py_in_domain_spec l Hd) as (Hok & Hc). pose proof (py_sum_bound l Hok). lia.
+Qed.
+Print Assumptions C20_sums_exact_in_domain.
+
+(* The tie to the routine: ONE bin [bs, be) of to_array_bins with Summary::Mean and the items that reach it.
+   The model folds [wig_upd Mean] and finishes with [wig_fin]: cell = sum / count exactly ([fdiv] on [FV]);
+   the binary64 twin folds [wig_mean_upd64 ieee] and finishes with v / (c as f64): the f64 cell is the rounded
+   quotient of exactly that sum and that count.  [l] = the bin's contributions (overlap size, value). *)
+Theorem C20_bin_mean_ieee : forall (is_ ie : wval -> Z) bs be iv r missing m64,
+  let items := iv :: r in
+  let l := wig_contribs is_ ie bs be items in
+  py_in_domain l = true ->
+  (exists d, foldM (fun d iv => wig_upd Mean (is_ iv) (ie iv) (w_val iv) bs be d) items None = Ok d
+             /\ wig_fin Mean missing d = fdiv (FV (py_sum_exact l)) (py_count l))
+  /\ wig_mean_fin64 ieee m64
+       (fold_left (fun d iv => wig_mean_upd64 ieee (is_ iv) (ie iv) (f8 (w_val iv)) bs be d) items None)
+     = fdiv64 ieee (f8 (py_sum_exact l)) (f_of_Z (py_count l)).
+Proof. exact wig_mean_cell. Qed.
+Print Assumptions C20_bin_mean_ieee.
+
+(* to_entry_array_bins keeps one f64 depth cell per base of a bin: NaN or a count.  [cell_rel E x y]: the
+   model cell x (NaN / a number in eighths) and the f64 y agree.  Domain [py_cells_in_domain]: at most 2^24
+   cells, each NaN or at most 2^24 in size.  (1) the update  cell.max(0.0) + 1.0  is exact; (2) the final
+   sum  cells.map(|c| c.max(0.0)).sum()  denotes exactly the model's [fsum0], for any carriers; (3) on canonical
+   carriers it is literally [f8 sum]; (4) the model's mean cell is sum / covered exactly and the f64 cell the
+   rounded quotient of exactly that sum and that count. *)
+Theorem C20_entry_sums_exact_in_domain : forall cells : list PyArrays.fl, py_cells_in_domain cells = true ->
+  (forall E x y, E <= -3 -> cell_rel E x y -> cell_z x + 8 < 2 ^ 53 ->
+     cell_rel E (PyArrays.fadd (PyArrays.fmax x (FV 0)) (FV 8)) (bed_cell_upd64 ieee y))
+  /\ (forall E ys, E <= -3 -> Forall2 (cell_rel E) cells ys -> gval E (-3) (bed_sum64 ieee ys) (bed_sum_exact cells))
+  /\ fsum0 cells = FV (bed_sum_exact cells)
+  /\ bed_sum64 ieee (map c64 cells) = f8 (bed_sum_exact cells)
+  /\ (forall missing m64 cov, existsb (fun c => 0 <? c) cov = true ->
+        bed_fin Mean missing (cov, cells) = fdiv (FV (bed_sum_exact cells)) (fold_left Z.add cov 0)
+        /\ bed_mean64 ieee m64 cov (map c64 cells) = fdiv64 ieee (f8 (bed_sum_exact cells)) (f_of_Z (fold_left Z.add cov 0))).
+Proof.
+  intros cells Hd. split; [|split; [|split; [exact (fsum0_exact cells)|split; [exact (bed_sum_f8 cells Hd)|]]]].
+  - intros E x y HE Hr Hb. apply bed_cell_step; [exact HE|apply mode_ok64_ieee; lia|exact Hr|exact Hb].
+  - intros E ys HE Hr. apply bed_sum_grid; [exact HE|apply mode_ok64_ieee; lia|exact Hd|exact Hr].
+  - intros missing m64 cov He. exact (bed_mean_cell missing m64 cov cells Hd He).
+Qed.
+Print Assumptions C20_entry_sums_exact_in_domain.
+
+(* Non-vacuity.  A bin receiving 3 bases of 2.5, 2 bases of -2.0 and nothing of a third item: in the domain;
+   exact sum 28 eighths over 5 bases; the IEEE accumulation on canonical carriers and on f32-style carriers
+   (mantissa scaled by 2^20, exponent -23) both denote 28/8; the mean cell is the f64 0.7 = 3.5 / 5 bit for bit.
+   Outside the domain the claim is false: 2^53 eighths plus one more is rounded. *)
+Definition ex_contribs : list (Z * Z) := [(3, 20); (2, -16); (0, 8)].
+Definition ex_v32 (z : Z) : Float.fl := FFin (z * 1048576) (-23).
+Example C20_example_sums :
+  py_in_domain ex_contribs = true /\ py_sum_exact ex_contribs = 28 /\ py_count ex_contribs = 5
+  /\ (forall t, In t ex_contribs -> gval (-149) (-3) (ex_v32 (snd t)) (snd t))
+  /\ py_sum_ieee ieee (lift f8 ex_contribs) = FFin 28 (-3)
+  /\ py_sum_ieee ieee (lift ex_v32 ex_contribs) = FFin 29360128 (-23) /\ gk (-149) (-3) (FFin 29360128 (-23)) = 28
+  /\ bits_of_f64 (py_mean_ieee ieee (lift f8 ex_contribs)) = 4604480259023595110%N
+  /\ py_in_domain [(1, 2 ^ 53); (1, 1)] = false
+  /\ py_sum_ieee ieee (lift f8 [(1, 2 ^ 53); (1, 1)]) <> f8 (py_sum_exact [(1, 2 ^ 53); (1, 1)]).
+Proof.
+  split; [vm_compute; reflexivity|]. split; [reflexivity|]. split; [reflexivity|]. split.
+  { intros t [<-|[<-|[<-|[]]]]; (split; [cbn; lia|vm_compute; reflexivity]). }
+  split; [vm_compute; reflexivity|]. split; [vm_compute; reflexivity|]. split; [vm_compute; reflexivity|].
+  split; [vm_compute; reflexivity|]. split; [vm_compute; reflexivity|]. vm_compute. discriminate.
+Qed.
+(* ... the bin [2,5) of the items of C20_example_bins_wig's shape through the routine's update: model cell and f64 cell *)
+Example C20_example_bin_mean :
+  let items := [ {| w_start := 0; w_end := 3; w_val := 20 |}; {| w_start := 3; w_end := 6; w_val := -16 |} ] in
+  py_in_domain (wig_contribs w_start w_end 2 5 items) = true
+  /\ foldM (fun d iv => wig_upd Mean (w_start iv) (w_end iv) (w_val iv) 2 5 d) items None = Ok (Some (3, FV (-12)))
+  /\ wig_fin Mean PyArrays.FNaN (Some (3, FV (-12))) = OQ (-12) 3
+  /\ bits_of_f64 (wig_mean_fin64 ieee Float.FNaN
+       (fold_left (fun d iv => wig_mean_upd64 ieee (w_start iv) (w_end iv) (f8 (w_val iv)) 2 5 d) items None))
+     = 13826050856027422720%N.                                    (* -0.5 *)
+Proof. cbv zeta. split; [vm_compute; reflexivity|]. split; [reflexivity|]. split; vm_compute; reflexivity. Qed.
+(* depth cells 1, NaN, 3, 2 of a 4-base bin with 3 covered bases: sum 48 eighths, mean 6/3 = 2.0 *)
+Example C20_example_entry_sums :
+  let cells := [FV 8; PyArrays.FNaN; FV 24; FV 16] in
+  py_cells_in_domain cells = true /\ bed_sum_exact cells = 48 /\ bed_sum64 ieee (map c64 cells) = FFin 48 (-3)
+  /\ bed_fin Mean PyArrays.FNaN ([1; 0; 1; 1], cells) = OQ 48 3
+  /\ bits_of_f64 (bed_mean64 ieee Float.FNaN [1; 0; 1; 1] (map c64 cells)) = 4611686018427387904%N
+  /\ cell_rel (-3) (PyArrays.fadd (PyArrays.fmax PyArrays.FNaN (FV 0)) (FV 8)) (bed_cell_upd64 ieee Float.FNaN).
+Proof.
+  cbv zeta. split; [vm_compute; reflexivity|]. split; [reflexivity|]. split; [vm_compute; reflexivity|].
+  split; [vm_compute; reflexivity|]. split; [vm_compute; reflexivity|]. split; [cbn; lia|vm_compute; reflexivity].
+Qed.
